@@ -226,6 +226,9 @@ PROPS["C01"] = {
              "the statement (blacklist -> rewrite -> drop-raw consumption by complete filter -> routes in order on the rewritten name -> "
              "all-match / first-match over destinations), compared in both directions with the exact line sequence each capture route "
              "received, the per-destination counter deltas after a Flush barrier, and the blacklist / unroutable / in / invalid counter deltas. "
+             "runtime_filter_change: 2-10 names are dispatched through a generated table, then 1-3 times a route's or a destination's filter is "
+             "modified at run time (UpdateRoute / UpdateDestination with a generated filter) and the SAME names are dispatched again: every delivery and "
+             "counter must follow the filters as they are now. "
              "concurrent_senders: the same tables and oracle with 8-80 lines per case handed in by 2-8 goroutines at once, each from its own reused "
              "buffer (several input connections); capture routes compared as multisets. In both sub-checks every slice a capture route was handed "
              "must still read the same at the end of the case. "
@@ -235,8 +238,8 @@ PROPS["C01"] = {
     "level_note": "kafkaMdm / pubsub / cloudWatch routes cannot be constructed offline (constructors need their services) and are outside the generated tables; grafanaNet is covered by C17. Consistent-hashing destination choice itself is C15's subject (here: exactly one destination).",
     "technique": "property-based testing (rapid): reference dispatcher model vs capture routes and per-destination counters",
     "assumptions": ["Go regexp is the RE2 reference", "names valid at the default validation level (printable ASCII, no tags)"],
-    "quick": [R("TestPropDispatch", 2500), R("TestPropConcurrentSenders", 700)],
-    "thorough": [R("TestPropDispatch", 20000, shards=12, timeout=2400), R("TestPropConcurrentSenders", 8000, shards=4, timeout=2400)],
+    "quick": [R("TestPropDispatch", 2500), R("TestPropConcurrentSenders", 700), R("TestPropRuntimeFilterChange", 800)],
+    "thorough": [R("TestPropDispatch", 20000, shards=12, timeout=2400), R("TestPropConcurrentSenders", 8000, shards=3, timeout=2400), R("TestPropRuntimeFilterChange", 10000, shards=2, timeout=2400)],
 }
 
 PROPS["C04"] = {
